@@ -1,5 +1,6 @@
 import Driver.Codec
 import PanderaModel.Subsample
+import PanderaModel.Generated.SubsampleRules
 open Lean Pandera
 
 structure SCase where
@@ -8,14 +9,18 @@ structure SCase where
   tail : Option Nat
   samplePos : Option (List Nat)
   keys : List String          -- the de-duplication key of every row (label / row values, rendered)
+  backend : Option String := none
   deriving FromJson
 
 def answer (j : Json) : Except String Json := do
   let c : SCase ← fromJson? j
   let key : Nat → String := fun i => c.keys.getD i ""
+  -- the selection is computed by the `subsample` program regenerated from the source
+  let prog := if c.backend == some "polars" then Generated.SubsampleRules.polarsSubsample
+              else Generated.SubsampleRules.pandasSubsample
   return Json.mkObj [
     ("requested", toJson (requestedPos c.n c.head c.tail c.samplePos)),
-    ("kept", toJson (keptPos key c.n c.head c.tail c.samplePos)),
+    ("kept", toJson (runSub prog key c.n c.head c.tail c.samplePos)),
     ("keysDistinct", toJson (decide c.keys.Nodup))]
 
 def main : IO Unit := do
